@@ -99,6 +99,47 @@ theorem C10_ring_after_run (ops : List Op) (hok : okRun sinit ops) (l : Bool) :
   rw [← h2]
   exact h3.ring l
 
+/-! ## statements about every state (stale handles included) -/
+
+/-- **`Init` resets the list whatever state it is in** (no well-formedness assumed: also after stale handles corrupted
+the ring or drove `Len` negative): afterwards `Len = 0`, `Front = Back = nil`, both traversals deliver nothing, the
+sentinel points at itself; the other list's `len` is untouched. -/
+theorem C10_init_resets (s : St) (l : Bool) :
+    let s' := (step s (.init l)).1
+    s'.len l = 0 ∧ front s' l = 0 ∧ back s' l = 0 ∧ (∀ fuel, walkF s' fuel (front s' l) = []) ∧
+    (∀ fuel, walkB s' fuel (back s' l) = []) ∧
+    (s'.heap (root l)).next = root l ∧ (s'.heap (root l)).prev = root l ∧ s'.len (!l) = s.len (!l) := by
+  have hl : (step s (.init l)).1.len l = 0 := by simp [step, initL, upd]
+  have hf : front (step s (.init l)).1 l = 0 := by unfold front; rw [if_pos hl]
+  have hb : back (step s (.init l)).1 l = 0 := by unfold back; rw [if_pos hl]
+  refine ⟨hl, hf, hb, ?_, ?_, ?_, ?_, ?_⟩
+  · intro fuel; rw [hf]; cases fuel <;> simp [walkF]
+  · intro fuel; rw [hb]; cases fuel <;> simp [walkB]
+  · simp [step, initL, setPrev, setNext]
+  · simp [step, initL, setPrev, setNext]
+  · cases l <;> simp [step, initL, upd]
+
+/-- **`Remove` of any element whose list pointer is `l`** — live, or left over from before an `Init` — decrements
+`Len` by exactly one (below zero if need be, as in container/list), clears the element's three pointers and returns its
+value; any other handle changes nothing (`C10_foreign_noop` needs `WF` only to know the list pointer). -/
+theorem C10_remove_any_state (s : St) (l : Bool) (e : Nat) :
+    (owned s e l = true →
+      (step s (.remove l e)).1.len l = s.len l - 1 ∧
+      ((step s (.remove l e)).1.heap e).owner = none ∧ ((step s (.remove l e)).1.heap e).next = 0 ∧
+      ((step s (.remove l e)).1.heap e).prev = 0 ∧ (step s (.remove l e)).2 = .value (s.heap e).val) ∧
+    (owned s e l = false → step s (.remove l e) = (s, .value (s.heap e).val)) := by
+  constructor
+  · intro h
+    simp [step, h, remove, upd, setOwner, setPrev, setNext]
+  · intro h
+    simp [step, h]
+
+/-- The two statements above on the history of the corpus (`pb A 1; init A; rm A 3; init A`): the stale `Remove`
+drives `Len` to −1 (its list pointer is still `A`), the second `Init` brings it back to 0. -/
+example : owned (run init [.pushBack false 1, .init false]).1 3 false = true ∧
+    (run init [.pushBack false 1, .init false, .remove false 3]).1.len false = -1 ∧
+    (run init [.pushBack false 1, .init false, .remove false 3, .init false]).1.len false = 0 := by decide
+
 /-! ## non-vacuity -/
 
 /-- A history with pushes, inserts, moves relative to handles, a removal, foreign and removed
